@@ -334,6 +334,21 @@ def tte_tables(lib):
         return out
     for m in walk(t['body']):
         if m['k'] != 'Match': continue
+        # matches!((self, s), (Self::True, "true" | ..) | (Self::False, ..) | ..): tuple patterns pairing a variant with its spellings
+        for a in m['arms']:
+            trues = [x for x in walk(a['body']) if x['k'] == 'Literal' and x.get('lit') == 'Bool']
+            if not (trues and trues[0]['value'] is True): continue
+            for q in flat_pats(a['pat']):
+                while q['k'] in ('Deref', 'DerefPattern'): q = q['sub']
+                if q['k'] == 'Leaf' and 'adt' not in q and len(q['subs']) == 2:
+                    subs = sorted(q['subs'], key=lambda x: x['field'])
+                    v_ = subs[0]['pat']
+                    while v_['k'] in ('Deref', 'DerefPattern'): v_ = v_['sub']
+                    if v_['k'] == 'Variant' and canon(v_['adt']) == 'rsbdd::truth_table::TruthTableEntry':
+                        for sp in flat_pats(subs[1]['pat']):
+                            st_ = const_str(sp)
+                            if st_ is not None: out.setdefault(v_['variant'], set()).add(st_)
+        if out: return out
         for a in m['arms']:
             p = a['pat']
             while p['k'] in ('Deref', 'DerefPattern'): p = p['sub']
